@@ -49,8 +49,8 @@ Print Assumptions C17_create_patches.
     document equal to 'to' (arrays in order, objects as name/value sets).  Array tails are removed at the index
     of the first surplus element, appended at "-"; object members are removed / added / descended into in the
     sorted merge order.
-    (DESIGN also mentions the same through the model's own apply_patch: that needs C16 for operation
-    sequences, which is proved per operation only — see Properties_C16.v.) *)
+    (The same through the model's own apply_patch is [C17_roundtrip_model] further down, built on the
+    sequence theorem [C16_conform] of Properties_C16.v.) *)
 Theorem C17_roundtrip : forall from to, dwf from -> dwf to -> shallow to ->
   exists patches f' t' ops d,
     cJSONUtils_GeneratePatchesCaseSensitive from to = Ok (patches, f', t') /\
